@@ -543,7 +543,7 @@ func races(r *rep.Run, paths map[string][]string, bound int) {
 
 func Run(r *rep.Run) {
 	thorough := r.Tier == "thorough"
-	r.Rule = "BFS to a fixpoint (depth bound 8 quick / 12 thorough) over deliveries {prepare, commit, rollback} x 2 branches (thorough: 3, incl. same branch id under another xid) sharing the fence table, real fence.WithFence in a real database/sql transaction on memdb, states = (fence status, try/confirm/cancel counters) per branch, every transition compared with a 5-state reference automaton; from every reachable state every delivery with a database error at each statement; from every reachable state (other branches idle) every pair of deliveries for one branch raced on two threads, all interleavings at statement granularity with at most `bound` preemptions (quick 2, thorough 4)."
+	r.Rule = "BFS to a fixpoint (depth bound 8 quick / 12 thorough) over deliveries {prepare, commit, rollback} x 2 branches (thorough: 3, incl. same branch id under another xid) sharing the fence table, real fence.WithFence in a real database/sql transaction on memdb, states = (fence status, try/confirm/cancel counters) per branch, every transition compared with a 5-state reference automaton; from every reachable state every delivery with a database error at each statement; from every reachable state (other branches idle) every pair of deliveries for one branch raced on two threads, all interleavings at statement granularity with at most `bound` preemptions (quick 2, thorough 4). The same BFS and fault enumeration (two branches) through a *sql.DB opened on the fence driver, and with commit / rollback delivered through the TCC resource manager (fresh context per delivery; one caller-shared seata context)."
 	r.Assume = []string{"memdb: row locks of SELECT ... FOR UPDATE (also on a missing row: none, as in MySQL without gap locks on a unique miss), duplicate key 1062, deadlock detection", "the application wraps each delivery in one local transaction and commits iff WithFence returned nil (the documented usage)"}
 	var err error
 	env, err = sys.NewEnv([]string{fenceDDL, bizDDL}, sys.Options{NoAT: true, NoXA: true})
@@ -621,8 +621,11 @@ func Run(r *rep.Run) {
 	if n := env.Srv.OpenTxCount(); n != 0 {
 		r.Violate("driver:transaction-left-open/no-context", clauseText, Located{Mode: "bfs"}, fmt.Sprintf("%d transaction(s) left open after a refused BeginTx", n))
 	}
-	dpaths := bfs(r, nb, depth)
-	faults(r, dpaths, nb)
+	// (the driver and resource-manager paths keep two branches in both tiers: their deliveries cost two transactions each,
+	// and the third branch - same branch id under another xid - exercises the fence table, which the API path covers)
+	nb2 := 2
+	dpaths := bfs(r, nb2, depth)
+	faults(r, dpaths, nb2)
 	// ... and with commit / rollback deliveries through the TCC resource manager
 	if _, err := tcc.NewTCCServiceProxy(fenceAction{}); err != nil {
 		r.Broken = "register fence action: " + err.Error()
@@ -631,9 +634,9 @@ func Run(r *rep.Run) {
 	for _, mode := range []string{"fresh", "shared"} {
 		viaRM, pathTag = mode, "rm-"+mode+":"
 		sharedCtx = tm.InitSeataContext(context.Background())
-		rpaths := bfs(r, nb, depth)
+		rpaths := bfs(r, nb2, depth)
 		if mode == "fresh" {
-			faults(r, rpaths, nb)
+			faults(r, rpaths, nb2)
 		}
 	}
 	viaRM = ""
